@@ -450,7 +450,10 @@ class Parser:
             out.append(defs.MathBeginToken(tok.pos, name, env))
             return out
         if env.remove:
+            # the body is skipped: this includes text flows extracted from it
+            n_extr = len(self.extracted)
             out += self.expand_sequence(buf, env_stop=name)
+            del self.extracted[n_extr:]
         return out
 
     #   close an environment
